@@ -23,13 +23,13 @@ func (v Verdict) String() string { return [...]string{"unsat", "sat", "unknown"}
 
 // Solver wraps one long-lived SMT solver process speaking SMT-LIB2 on stdin/stdout.
 type Solver struct {
-	name  string
-	cmd   *exec.Cmd
-	in    io.WriteCloser
-	out   *bufio.Reader
-	Stats SolverStats
-	log   io.Writer // optional transcript
-	dead  bool
+	name   string
+	cmd    *exec.Cmd
+	in     io.WriteCloser
+	out    *bufio.Reader
+	Stats  SolverStats
+	log    io.Writer // optional transcript
+	dead   bool
 	inPath bool
 }
 
@@ -225,7 +225,6 @@ func parseModel(resp string) map[string]uint64 {
 	}
 	return m
 }
-
 
 // Recheck feeds discharged obligations (complete SMT-LIB scripts ending in check-sat) to another solver and
 // returns how many it also answers unsat, and the answers that differ.
